@@ -83,6 +83,10 @@ def parseSyncOp (w : List String) : Option SyncStream.Op :=
   | ["parts"] => some .parts
   | _ => none
 
+/-- `rewrap`: `into_parts`, then a new stream with the same limits over the same inner stream -/
+def rewrap (s : SyncStream.State) : SyncStream.State × Bytes :=
+  (SyncStream.State.new s.r.base s.r.max s.r.script s.w.script, s.r.intoParts)
+
 def parseAsyncOp (w : List String) : Option PollAdapter.Op :=
   match w with
   | ["pr", t, n] => match t.toNat?, n.toNat? with | some t, some n => some (.pr (t % 4) n) | _, _ => none
@@ -117,10 +121,10 @@ def step (sut : Sut) (line : String) : Sut × String :=
   | [kind, base, max, rs, ws] =>
     match base.toNat?, max.toNat?, allSome ((listOf rs).map parseRItem), allSome ((listOf ws).map parseWItem) with
     | some base, some max, some rs, some ws =>
-      if kind = "sync" then
+      if kind ∈ ["sync", "ssplit", "scap", "snew"] then
         let s := SyncStream.State.new base max rs ws
         (.sync s false false, "ok" ++ obs [] [] ++ syncSt s)
-      else if kind = "async" then
+      else if kind ∈ ["async", "asplit", "acap", "anew", "arw", "arwnew"] then
         (.async (PollAdapter.State.new base max rs ws) false false, "ok" ++ obs [] [])
       else (sut, "bad-op")
     | _, _, _, _ => (sut, "bad-op")
@@ -128,14 +132,17 @@ def step (sut : Sut) (line : String) : Sut × String :=
     match sut with
     | .none => (sut, "bad-op")
     | .sync s rp wp =>
+      if w = ["rewrap"] then
+        if s.gone then (sut, "gone" ++ obs [] []) else
+        let (s', rest) := rewrap s
+        (.sync s' false false, s!"ok {hexOf rest}" ++ obs [] [] ++ syncSt s')
+      else
       match parseSyncOp w with
       | none => (sut, "bad-op")
       | some op =>
-        let h := syncHalf op
-        if (h == 0 && rp) || (h == 1 && wp) then (sut, "skip") else
+        -- after a panic the calls go on: the sticky post-panic behaviour is part of the comparison
         let (s', o) := SyncStream.step s op
-        let pan := o == .panic
-        (.sync s' (rp || (pan && h == 0)) (wp || (pan && h == 1)),
+        (.sync s' rp wp,
          showSyncOut o ++ obs (s'.r.log ++ s'.w.log) (s'.r.woken ++ s'.w.woken) ++ syncSt s')
     | .async s rp wp =>
       match parseAsyncOp w with
@@ -144,9 +151,11 @@ def step (sut : Sut) (line : String) : Sut × String :=
         let rd := isReadOp op
         if (rd && rp) || (!rd && wp) then (sut, "skip") else
         let (s', o) := PollAdapter.step s op
-        let pan := o == .panic
+        -- `hang`: the retry loop of the entry point never ends (the real call spins); the harness
+        -- establishes that in a forked copy and does not use the half any more
+        if o == .hang then (.async s (rp || rd) (wp || !rd), "spin") else
         let ob := if rd then obs s'.ar.r.log s'.ar.r.woken else obs s'.aw.w.log s'.aw.w.woken
-        (.async s' (rp || (pan && rd)) (wp || (pan && !rd)), showAsyncOut op o ++ ob)
+        (.async s' rp wp, showAsyncOut op o ++ ob)
 
 end C12
 
